@@ -20,7 +20,8 @@ Proof. reflexivity. Qed.
 Lemma counts_failures_counting m : counts_failures m = counting m.
 Proof. destruct m; reflexivity. Qed.
 
-Lemma cvs_names_spec m : cvs_names m = spec_cvs_names m.
+(* the table the theorems are proved for lists, per mode, the logs robsd-cvs.sh collects *)
+Lemma cvs_names_fixed m : cvs_names_of (sw_cvs_logs fixed_sw) m = spec_cvs_names m.
 Proof. destruct m; reflexivity. Qed.
 
 (* ---- status ----------------------------------------------------------------------------------- *)
@@ -212,7 +213,7 @@ Qed.
 
 Lemma is_log_empty_spec fs r : negb (is_log_empty fs r) = has_plain_line fs r.
 Proof.
-  unfold is_log_empty, has_plain_line. destruct (f_log fs (r_log r)) as [c|]; [|reflexivity].
+  unfold is_log_empty, has_plain_line. destruct (f_log fs (r_log r)) as [| |c]; [reflexivity|reflexivity|].
   rewrite (proj1 (only_trace_spec c)). reflexivity.
 Qed.
 
@@ -245,7 +246,7 @@ Proof.
     destruct (mem (r_name r) (c_regress cfg)); cbn [negb orb andb]; [|reflexivity].
     destruct (mem (r_name r) (c_quiet cfg)); cbn [negb orb andb]; [reflexivity|].
     destruct (r_log r) as [|x l]; [reflexivity|]. cbn [nonnil negb].
-    destruct (f_log fs (x :: l)) as [c|]; [|reflexivity].
+    destruct (f_log fs (x :: l)) as [| |c]; [reflexivity|reflexivity|].
     rewrite peek_positive. destruct (existsb (selected fl_peek) (drop_trace (clines c))); reflexivity.
   - destruct (beq (r_name r) name_cvs); [reflexivity|]. cbn [orb].
     rewrite is_log_empty_spec. destruct (beq (r_name r) name_checkflist && has_plain_line fs r); reflexivity.
@@ -287,43 +288,67 @@ Qed.
 
 (* the cvs logs that exist and are not empty *)
 Definition present (fs : files) (names : list bytes) : list bytes :=
-  flat_map (fun n => match f_tmp fs n with Some (c :: b) => [c :: b] | _ => [] end) names.
+  flat_map (fun n => match f_tmp fs n with FData (c :: b) => [c :: b] | _ => [] end) names.
 
-(* report.c as it is now passes over a cvs log that was never written (/repo da850b3); this line stops
-   compiling when the test goes back to "only an empty file" (D18) *)
-Lemma cvs_switch : cvs_missing_skipped = true.
-Proof. reflexivity. Qed.
-
+(* the loop that passes over a log that does not exist (/repo da850b3), when every log that is there can be read *)
 Lemma cvs_loop_spec fs names k out :
+  cvs_unreadable fs names = false ->
   cvs_loop_with true fs names k out =
     let parts := map spec_format (present fs names) in
     (out ++ (if Nat.ltb 0 k then concat (map (cons 10) parts) else join_nl parts), false).
 Proof.
-  revert k out; induction names as [|n ns IH]; intros k out.
+  revert k out; induction names as [|n ns IH]; intros k out Hu.
   - cbn [cvs_loop_with present flat_map map concat join_nl]. destruct (Nat.ltb 0 k); rewrite app_nil_r; reflexivity.
-  - cbn [cvs_loop_with present flat_map]. fold (present fs ns).
-    destruct (f_tmp fs n) as [[|x b]|] eqn:En; cbn [app].
-    + apply IH.
-    + rewrite IH. cbn [map]. rewrite format_file_spec. change (Nat.ltb 0 (S k)) with true.
+  - cbn [cvs_unreadable existsb] in Hu. apply orb_false_iff in Hu. destruct Hu as [Hn Hu]. fold (cvs_unreadable fs ns) in Hu.
+    cbn [cvs_loop_with present flat_map]. fold (present fs ns).
+    destruct (f_tmp fs n) as [| |[|x b]] eqn:En; cbn [app].
+    + apply IH. exact Hu.
+    + discriminate Hn.
+    + apply IH. exact Hu.
+    + rewrite IH by exact Hu. cbn [map]. rewrite format_file_spec. change (Nat.ltb 0 (S k)) with true.
       destruct (Nat.ltb 0 k).
       * cbn [concat map]. rewrite <- !app_assoc. reflexivity.
       * rewrite join_nl_cons, <- !app_assoc. reflexivity.
-    + apply IH.
 Qed.
 
-Lemma cvs_log_spec m fs : cvs_log m fs = spec_cvs m fs.
+(* ... and when one cannot, format_file fails on it and the loop ends with an error *)
+Lemma cvs_loop_unreadable sk fs names k out :
+  cvs_unreadable fs names = true -> snd (cvs_loop_with sk fs names k out) = true.
 Proof.
-  unfold cvs_log, cvs_loop, spec_cvs. rewrite cvs_switch, cvs_loop_spec, cvs_names_spec. reflexivity.
+  revert k out; induction names as [|n ns IH]; intros k out Hu; [discriminate Hu|].
+  cbn [cvs_unreadable existsb] in Hu. fold (cvs_unreadable fs ns) in Hu. cbn [cvs_loop_with].
+  destruct (f_tmp fs n) as [| |[|x b]] eqn:En; cbn [is_unreadable orb] in Hu.
+  - destruct sk; [apply IH; exact Hu|reflexivity].
+  - reflexivity.
+  - apply IH. exact Hu.
+  - apply IH. exact Hu.
 Qed.
 
-(* HISTORICAL PIN: the loop as shipped before da850b3 stopped at the first cvs log that did not exist and the
-   report failed with it (D18); vacuous now that the switch is [true] *)
+(* report_cvs_log as a whole: the specified text, or an error exactly when a log is there and cannot be read *)
+Lemma cvs_log_spec m fs :
+  (let '(b, e) := cvs_log_with fixed_sw m fs in if e then RErr else ROk b) = spec_cvs m fs.
+Proof.
+  unfold cvs_log_with, spec_cvs. rewrite cvs_names_fixed. change (sw_cvs_missing fixed_sw) with true.
+  destruct (cvs_unreadable fs (spec_cvs_names m)) eqn:Hu.
+  - pose proof (cvs_loop_unreadable true fs (spec_cvs_names m) 0 [10] Hu) as H.
+    destruct (cvs_loop_with true fs (spec_cvs_names m) 0 [10]) as [b e]. cbn [snd] in H. now rewrite H.
+  - rewrite cvs_loop_spec by exact Hu. reflexivity.
+Qed.
+
+Lemma cvs_log_fst_spec m fs :
+  cvs_unreadable fs (spec_cvs_names m) = false -> ROk (fst (cvs_log_with fixed_sw m fs)) = spec_cvs m fs.
+Proof.
+  intros Hu. rewrite <- cvs_log_spec. unfold cvs_log_with. rewrite cvs_names_fixed. change (sw_cvs_missing fixed_sw) with true.
+  rewrite cvs_loop_spec by exact Hu. reflexivity.
+Qed.
+
+(* D18, the loop as shipped before da850b3: the first cvs log that does not exist ends it with an error, and the
+   report of a robsd-ports invocation without cvs logs fails with it, where the specification has a section *)
 Lemma cvs_missing_refuted :
-  cvs_missing_skipped = false ->
-  exists m fs, snd (cvs_log m fs) = true /\ snd (spec_cvs m fs) = false.
+  exists m fs, snd (cvs_log_with sw_before_d18 m fs) = true /\ spec_cvs m fs = ROk [10].
 Proof.
-  intros H. exists Ports, (mkfiles (fun _ => None) (fun _ => None) FAbsent None None None None (fun _ _ => None)).
-  unfold cvs_log, cvs_loop. rewrite H. split; reflexivity.
+  exists Ports, (mkfiles (fun _ => FAbsent) (fun _ => FAbsent) FAbsent None None None None (fun _ _ => None)).
+  split; reflexivity.
 Qed.
 
 (* ---- the last lines ----------------------------------------------------------------------------------- *)
@@ -402,78 +427,98 @@ Qed.
 
 (* ---- what follows the Log: line --------------------------------------------------------------------- *)
 
+(* the source with every repair but D14's in either form *)
+Definition sw_copies (ce cc : bool) : switches :=
+  mksw ce cc true true true true (cvs_table_robsd_ports ++ cvs_table_regress).
+
 (* exactly when the excerpt is printed as specified: the bytes are copied, or
    the part of the log that is shown holds no NUL byte *)
 Definition body_guard (ce cc : bool) (m : mode) (fs : files) (r : srow) : Prop :=
-  forall c, f_log fs (r_log r) = Some c ->
+  forall c, f_log fs (r_log r) = FData c ->
     match m with
     | Canvas => cc = true \/ nonul c
     | _ => ce = true \/ nonul (spec_tail 10 c)
     end.
 
-Lemma generic_spec ce m fs r :
-  (forall c, f_log fs (r_log r) = Some c -> ce = true \/ nonul (spec_tail 10 c)) ->
-  generic_step_log_with ce m fs r = spec_generic_body m fs r.
+(* the one place where a file that cannot be read does NOT end the report: outside robsd-ports the result of
+   report_cvs_log is tested with "< 0" (STEP_LOG_ERROR is 3), so a cvs log that is there but unreadable gives an
+   incomplete section instead of exit 1.  Unreadable files are outside the property; the guard keeps them out of the
+   statements below *)
+Definition cvs_guard (m : mode) (fs : files) : Prop :=
+  m = Ports \/ cvs_unreadable fs (spec_cvs_names m) = false.
+
+Lemma cvs_log_copies ce cc m fs : cvs_log_with (sw_copies ce cc) m fs = cvs_log_with fixed_sw m fs.
+Proof. reflexivity. Qed.
+
+Lemma spec_excerpt_nil : spec_excerpt [] = [10].
+Proof. reflexivity. Qed.
+
+Lemma generic_spec ce cc m fs r :
+  (forall c, f_log fs (r_log r) = FData c -> ce = true \/ nonul (spec_tail 10 c)) ->
+  cvs_unreadable fs (spec_cvs_names m) = false \/ beq (r_name r) name_cvs = false ->
+  generic_step_log (sw_copies ce cc) m fs r = spec_generic_body m fs r.
 Proof.
-  intros G. unfold generic_step_log_with, spec_generic_body. rewrite cvs_log_spec.
-  destruct (beq (r_name r) name_cvs); [reflexivity|].
-  destruct (r_log r) as [|x l] eqn:El; [reflexivity|].
-  destruct (f_log fs (x :: l)) as [c|] eqn:Ec; [|reflexivity].
-  rewrite excerpt_spec; [reflexivity|]. apply G. first [exact Ec | reflexivity].
+  intros G Hc. unfold generic_step_log, spec_generic_body.
+  destruct (beq (r_name r) name_cvs) eqn:En.
+  - destruct Hc as [Hc|Hc]; [|discriminate Hc]. rewrite cvs_log_copies. exact (cvs_log_fst_spec m fs Hc).
+  - destruct (r_log r) as [|x l] eqn:El; [reflexivity|]. unfold log_content.
+    destruct (f_log fs (x :: l)) as [| |c] eqn:Ec; [reflexivity|reflexivity|].
+    cbn [sw_excerpt_copies sw_copies]. rewrite excerpt_spec; [reflexivity|]. apply G. reflexivity.
 Qed.
 
-Lemma generic_spec_nolog ce m fs r :
-  r_log r = [] -> generic_step_log_with ce m fs r = spec_generic_body m fs r.
+Lemma generic_spec_nolog ce cc m fs r :
+  r_log r = [] -> cvs_unreadable fs (spec_cvs_names m) = false \/ beq (r_name r) name_cvs = false ->
+  generic_step_log (sw_copies ce cc) m fs r = spec_generic_body m fs r.
 Proof.
-  intros El. unfold generic_step_log_with, spec_generic_body. rewrite cvs_log_spec, El. reflexivity.
+  intros El Hc. unfold generic_step_log, spec_generic_body.
+  destruct (beq (r_name r) name_cvs) eqn:En.
+  - destruct Hc as [Hc|Hc]; [|discriminate Hc]. rewrite cvs_log_copies. exact (cvs_log_fst_spec m fs Hc).
+  - rewrite El. reflexivity.
 Qed.
+
+Lemma file_blocks_nil fl : file_blocks fl [] = [].
+Proof. reflexivity. Qed.
 
 Lemma step_log_spec ce cc m cfg fs r :
-  body_guard ce cc m fs r -> step_log_with ce cc m cfg fs r = spec_body m cfg fs r.
+  body_guard ce cc m fs r -> cvs_guard m fs ->
+  step_log_with (sw_copies ce cc) m cfg fs r = spec_body m cfg fs r.
 Proof.
-  intros G. unfold body_guard in G. unfold step_log_with, spec_body. destruct m.
-  - apply generic_spec. exact G.
-  - apply generic_spec. exact G.
-  - unfold ports_step_log. rewrite cvs_log_spec.
-    destruct (beq (r_name r) name_cvs).
-    + destruct (spec_cvs Ports fs) as [b e]. destruct e; reflexivity.
+  intros G Hg. unfold body_guard in G. unfold step_log_with, spec_body. destruct m.
+  - destruct Hg as [Hg|Hg]; [discriminate Hg|]. apply generic_spec; [exact G|left; exact Hg].
+  - destruct Hg as [Hg|Hg]; [discriminate Hg|]. apply generic_spec; [exact G|left; exact Hg].
+  - unfold ports_step_log.
+    destruct (beq (r_name r) name_cvs) eqn:En.
+    + rewrite cvs_log_copies, <- cvs_log_spec. destruct (cvs_log_with fixed_sw Ports fs) as [b e]. destruct e; reflexivity.
     + destruct (beq (r_name r) name_dpb && (r_exit r =? 0)%Z).
-      * destruct (f_tmp fs packages_diff) as [b|]; [|reflexivity]. rewrite format_file_spec. reflexivity.
-      * apply generic_spec. exact G.
-  - unfold regress_step_log, is_regress_quiet.
+      * destruct (f_tmp fs packages_diff) as [| |b]; [reflexivity|reflexivity|]. rewrite format_file_spec. reflexivity.
+      * apply generic_spec; [exact G|right; exact En].
+  - destruct Hg as [Hg|Hg]; [discriminate Hg|].
+    unfold regress_step_log, is_regress_quiet, log_content.
     destruct (r_log r) as [|x l] eqn:El; [reflexivity|].
-    destruct (f_log fs (x :: l)) as [c|] eqn:Ec; [|reflexivity].
-    rewrite parse_spec. cbn [app fl_log fNEWLINE].
-    destruct (file_blocks _ c) as [|b bl]; cbn [List.length Nat.ltb Nat.leb nonnil].
-    + apply generic_spec. intros c0 E0. apply G. rewrite El, Ec in E0. exact E0.
+    destruct (f_log fs (x :: l)) as [| |c] eqn:Ec.
+    + cbn [sw_regress_missing sw_copies]. rewrite file_blocks_nil. cbn [nonnil].
+      apply generic_spec; [|left; exact Hg]. intros c0 E0. rewrite El, Ec in E0. discriminate E0.
     + reflexivity.
-  - unfold canvas_step_log_with.
-    destruct (r_log r) as [|x l] eqn:El; [apply generic_spec_nolog; exact El|].
-    destruct (f_log fs (x :: l)) as [c|] eqn:Ec; [|reflexivity].
+    + rewrite parse_spec. cbn [app fl_log fNEWLINE].
+      destruct (file_blocks _ c) as [|b bl]; cbn [List.length Nat.ltb Nat.leb nonnil].
+      * apply generic_spec; [|left; exact Hg]. intros c0 E0. apply G. rewrite El, Ec in E0. exact E0.
+      * reflexivity.
+  - destruct Hg as [Hg|Hg]; [discriminate Hg|].
+    unfold canvas_step_log, log_content.
+    destruct (r_log r) as [|x l] eqn:El; [apply generic_spec_nolog; [exact El|left; exact Hg]|].
+    destruct (f_log fs (x :: l)) as [| |c] eqn:Ec; [reflexivity|reflexivity|].
+    cbn [sw_canvas_copies sw_copies].
     destruct cc; [reflexivity|]. destruct (G c eq_refl) as [H|H]; [discriminate H|].
     rewrite cstr_id by exact H. reflexivity.
 Qed.
 
 Definition is_err {A} (x : result A) : bool := match x with RErr => true | ROk _ => false end.
 
-(* whether a report can be produced does not depend on how the excerpt is printed *)
-Lemma step_log_err_indep ce cc m cfg fs r :
-  is_err (step_log_with ce cc m cfg fs r) = is_err (step_log_with true true m cfg fs r).
+(* the body clause for the source with every repair in place *)
+Lemma step_log_fixed m cfg fs r :
+  cvs_guard m fs -> step_log_with fixed_sw m cfg fs r = spec_body m cfg fs r.
 Proof.
-  assert (Hg : forall a, is_err (generic_step_log_with a m fs r) = is_err (generic_step_log_with true m fs r)).
-  { intros a. unfold generic_step_log_with. destruct (beq (r_name r) name_cvs); [reflexivity|].
-    destruct (r_log r) as [|x l]; [reflexivity|]. destruct (f_log fs (x :: l)); reflexivity. }
-  unfold step_log_with. destruct m; try apply Hg.
-  - destruct (ports_step_log fs r); try reflexivity. apply Hg.
-  - destruct (regress_step_log cfg fs r); try reflexivity. apply Hg.
-  - unfold canvas_step_log_with. destruct (r_log r) as [|x l]; [apply Hg|].
-    destruct (f_log fs (x :: l)); reflexivity.
-Qed.
-
-Lemma step_log_err_spec ce cc m cfg fs r :
-  is_err (step_log_with ce cc m cfg fs r) = is_err (spec_body m cfg fs r).
-Proof.
-  rewrite step_log_err_indep, step_log_spec; [reflexivity|].
+  intros Hg. change fixed_sw with (sw_copies true true). apply step_log_spec; [|exact Hg].
   intros c _. destruct m; left; reflexivity.
 Qed.
 
@@ -482,23 +527,24 @@ Qed.
 Definition section_of (r : srow) (b : bytes) : section :=
   mksec (r_name r) (cast_int (r_exit r)) (step_duration r) (r_log r) b.
 
-Definition body_or_nil (m : mode) (cfg : cfgview) (fs : files) (r : srow) : bytes :=
-  match step_log m cfg fs r with ROk b => b | RErr => [] end.
+Definition body_or_nil_with (w : switches) (m : mode) (cfg : cfgview) (fs : files) (r : srow) : bytes :=
+  match step_log_with w m cfg fs r with ROk b => b | RErr => [] end.
+Definition body_or_nil := body_or_nil_with cur_sw.
 
 Lemma row_error_alt m cfg fs r :
+  cvs_guard m fs ->
   row_error m cfg fs r =
-    nonskipped r && (candidate_without_log m cfg r || (spec_shown m cfg fs r && is_err (step_log m cfg fs r))).
-Proof.
-  unfold row_error, step_log. rewrite step_log_err_spec. unfold is_err. reflexivity.
-Qed.
+    nonskipped r && (candidate_without_log m cfg r || (spec_shown m cfg fs r && is_err (step_log_with fixed_sw m cfg fs r))).
+Proof. intros Hg. unfold row_error. rewrite (step_log_fixed m cfg fs r Hg). unfold is_err. reflexivity. Qed.
 
 Lemma steps_loop_spec m cfg fs rows :
-  steps_loop m cfg fs rows =
+  cvs_guard m fs ->
+  steps_loop_with fixed_sw m cfg fs rows =
     if existsb (row_error m cfg fs) rows then RErr
-    else ROk (map (fun r => section_of r (body_or_nil m cfg fs r)) (filter (spec_shown m cfg fs) rows)).
+    else ROk (map (fun r => section_of r (body_or_nil_with fixed_sw m cfg fs r)) (filter (spec_shown m cfg fs) rows)).
 Proof.
-  induction rows as [|r rs IH]; [reflexivity|].
-  cbn [steps_loop existsb filter]. rewrite row_error_alt, row_skipped_is.
+  intros Hg. unfold steps_loop_with. induction rows as [|r rs IH]; [reflexivity|].
+  cbn [steps_loop_gen existsb filter]. rewrite (row_error_alt m cfg fs r Hg), row_skipped_is.
   destruct (Z.eqb_spec (r_skip r) 1) as [Es|Es].
   - assert (Hn : nonskipped r = false) by (unfold nonskipped; rewrite Es; reflexivity).
     unfold spec_shown at 2. rewrite Hn. cbn [andb orb]. exact IH.
@@ -506,27 +552,30 @@ Proof.
     fold (decide m cfg fs r). rewrite (decide_spec m cfg fs r Hn), Hn. cbn [andb].
     destruct (candidate_without_log m cfg r); [reflexivity|]. cbn [orb].
     destruct (spec_shown m cfg fs r) eqn:Hs; cbn [andb].
-    + destruct (step_log m cfg fs r) as [b|] eqn:Eb; cbn [is_err orb]; [|reflexivity].
+    + destruct (step_log_with fixed_sw m cfg fs r) as [b|] eqn:Eb; cbn [is_err orb]; [|reflexivity].
       rewrite IH. destruct (existsb (row_error m cfg fs) rs); [reflexivity|]. cbn [map].
-      replace (body_or_nil m cfg fs r) with b by (unfold body_or_nil; rewrite Eb; reflexivity). reflexivity.
+      replace (body_or_nil_with fixed_sw m cfg fs r) with b by (unfold body_or_nil_with; rewrite Eb; reflexivity). reflexivity.
     + exact IH.
 Qed.
 
 Theorem report_error_iff m cfg rows fs :
-  report_struct_rows m cfg rows fs = RErr <-> spec_error m cfg fs rows = true.
+  cvs_guard m fs ->
+  (report_struct_rows_with fixed_sw m cfg rows fs = RErr <-> spec_error m cfg fs rows = true).
 Proof.
-  unfold report_struct_rows, spec_error. rewrite steps_loop_spec.
+  intros Hg. unfold report_struct_rows_with, report_struct_rows_gen, spec_error. fold (steps_loop_with fixed_sw m cfg fs rows). rewrite (steps_loop_spec m cfg fs rows Hg).
   destruct (c_running cfg); cbn [negb orb]; [|tauto].
   destruct (f_comment fs); cbn [orb];
     destruct (existsb (row_error m cfg fs) rows); split; intros H; try reflexivity; try discriminate H.
 Qed.
 
 Theorem sections_exact m cfg rows fs rep :
-  report_struct_rows m cfg rows fs = ROk rep ->
-  rp_sections rep = map (fun r => section_of r (body_or_nil m cfg fs r)) (filter (spec_shown m cfg fs) rows) /\
-  (forall r, In r (filter (spec_shown m cfg fs) rows) -> step_log m cfg fs r = ROk (body_or_nil m cfg fs r)).
+  cvs_guard m fs ->
+  report_struct_rows_with fixed_sw m cfg rows fs = ROk rep ->
+  rp_sections rep = map (fun r => section_of r (body_or_nil_with fixed_sw m cfg fs r)) (filter (spec_shown m cfg fs) rows) /\
+  (forall r, In r (filter (spec_shown m cfg fs) rows) ->
+     step_log_with fixed_sw m cfg fs r = ROk (body_or_nil_with fixed_sw m cfg fs r)).
 Proof.
-  unfold report_struct_rows. rewrite steps_loop_spec.
+  intros Hg. unfold report_struct_rows_with, report_struct_rows_gen. fold (steps_loop_with fixed_sw m cfg fs rows). rewrite (steps_loop_spec m cfg fs rows Hg).
   destruct (c_running cfg); cbn [negb]; [|discriminate].
   destruct (existsb (row_error m cfg fs) rows) eqn:Ee.
   - destruct (f_comment fs); discriminate.
@@ -536,8 +585,8 @@ Proof.
       assert (Hr : row_error m cfg fs r = false).
       { destruct (row_error m cfg fs r) eqn:E; [|reflexivity].
         assert (existsb (row_error m cfg fs) rows = true) by (apply existsb_exists; exists r; tauto). congruence. }
-      rewrite row_error_alt, Hs in Hr. unfold body_or_nil.
-      destruct (step_log m cfg fs r) as [b|]; [reflexivity|].
+      rewrite (row_error_alt m cfg fs r Hg), Hs in Hr. unfold body_or_nil_with.
+      destruct (step_log_with fixed_sw m cfg fs r) as [b|]; [reflexivity|].
       unfold spec_shown in Hs. apply andb_true_iff in Hs. destruct Hs as [Hn _]. rewrite Hn in Hr.
       cbn in Hr. rewrite orb_true_r in Hr. discriminate Hr.
 Qed.
@@ -545,14 +594,15 @@ Qed.
 (* the keys of the sections, in order: the listed rows; failing rows are always
    listed, skipped rows never *)
 Theorem every_failure_has_section m cfg rows fs rep :
-  report_struct_rows m cfg rows fs = ROk rep ->
+  cvs_guard m fs ->
+  report_struct_rows_with fixed_sw m cfg rows fs = ROk rep ->
   map (fun s => (s_name s, (s_exit s, s_log s))) (rp_sections rep) =
     map (fun r => (r_name r, (cast_int (r_exit r), r_log r))) (filter (spec_shown m cfg fs) rows) /\
   (forall r, In r rows -> r_skip r <> 1%Z -> r_exit r <> 0%Z -> spec_shown m cfg fs r = true) /\
   (forall r, r_skip r = 1%Z -> spec_shown m cfg fs r = false) /\
   (forall r, spec_shown m cfg fs r = true -> r_exit r = 0%Z -> listed_anyway m cfg fs r = true).
 Proof.
-  intros H. apply sections_exact in H. destruct H as [-> _]. split; [|split; [|split]].
+  intros Hg H. apply (sections_exact _ _ _ _ _ Hg) in H. destruct H as [-> _]. split; [|split; [|split]].
   - rewrite map_map. reflexivity.
   - intros r _ Hs He. unfold spec_shown, nonskipped.
     apply Z.eqb_neq in Hs. apply Z.eqb_neq in He. rewrite Hs, He. reflexivity.
@@ -561,45 +611,30 @@ Proof.
     apply andb_true_iff in Hs. tauto.
 Qed.
 
-Theorem body_partial m cfg fs r :
-  body_guard excerpt_copies_bytes canvas_copies_bytes m fs r ->
-  step_log m cfg fs r = spec_body m cfg fs r.
+(* the body under the exact guard of D14 (either form of the two prints) *)
+Theorem body_partial ce cc m cfg fs r :
+  body_guard ce cc m fs r -> cvs_guard m fs ->
+  step_log_with (sw_copies ce cc) m cfg fs r = spec_body m cfg fs r.
 Proof. apply step_log_spec. Qed.
-
-Theorem body_if_copied m cfg fs r :
-  excerpt_copies_bytes = true -> canvas_copies_bytes = true ->
-  step_log m cfg fs r = spec_body m cfg fs r.
-Proof.
-  intros H1 H2. apply step_log_spec. intros c _. destruct m; left; assumption.
-Qed.
 
 (* D14: a NUL byte in the last lines cuts the excerpt; the real last line never
    reaches the report *)
 Definition d14_row : srow := mksrow [98] 1 5 0 [98; 46; 108; 111; 103] 2 0.
 Definition d14_log : bytes := [108; 49; 10; 108; 50; 0; 109; 105; 100; 10; 108; 97; 115; 116; 10].
 Definition d14_files : files :=
-  mkfiles (fun _ => Some d14_log) (fun _ => None) FAbsent None None None None (fun _ _ => None).
+  mkfiles (fun _ => FData d14_log) (fun _ => FAbsent) FAbsent None None None None (fun _ _ => None).
 Definition d14_cfg : cfgview := mkcfg [47; 98] true [47] [47; 97] [] [] [] [].
 
+(* the source as shipped (both prints were %s conversions) *)
 Theorem body_refuted :
-  excerpt_copies_bytes = false ->
   exists m cfg fs r, spec_shown m cfg fs r = true /\
-    step_log m cfg fs r <> spec_body m cfg fs r /\
-    step_log m cfg fs r = ROk [10; 108; 49; 10; 108; 50] /\
+    step_log_with sw_before_d14 m cfg fs r = ROk [10; 108; 49; 10; 108; 50] /\
     spec_body m cfg fs r = ROk (10 :: d14_log).
-Proof.
-  intros H. exists Robsd, d14_cfg, d14_files, d14_row.
-  vm_compute in H |- *.
-  first [discriminate H | (split; [reflexivity|split; [intro E; discriminate E|split; reflexivity]])].
-Qed.
+Proof. exists Robsd, d14_cfg, d14_files, d14_row. repeat split. Qed.
 
 Theorem canvas_body_refuted :
-  canvas_copies_bytes = false ->
-  exists cfg fs r, step_log Canvas cfg fs r <> spec_body Canvas cfg fs r.
-Proof.
-  intros H. exists d14_cfg, d14_files, d14_row.
-  vm_compute in H |- *. first [discriminate H | (intro E; discriminate E)].
-Qed.
+  exists cfg fs r, step_log_with sw_before_d14 Canvas cfg fs r <> spec_body Canvas cfg fs r.
+Proof. exists d14_cfg, d14_files, d14_row. vm_compute. intro E. discriminate E. Qed.
 
 (* ---- sanitizing ------------------------------------------------------------------------------------------ *)
 
@@ -704,19 +739,20 @@ Qed.
 
 (* the model's own report passes the oracles (whenever the body guard holds) *)
 Theorem model_passes_oracles x rows rep :
+  cvs_guard (x_mode x) (files_of x) ->
   rows_of x = Some rows ->
-  report_struct_rows (x_mode x) (cfg_of x) rows (files_of x) = ROk rep ->
+  report_struct_rows_with fixed_sw (x_mode x) (cfg_of x) rows (files_of x) = ROk rep ->
   spec_ok_sections x (map (fun s => (s_name s, (s_exit s, s_log s))) (rp_sections rep)) = true /\
   (status_hyps (x_mode x) rows = true -> beq (rp_status rep) (spec_status (x_mode x) rows) = true) /\
   spec_ok_sane (render (x_host x) rep) = true.
 Proof.
-  intros E H. split; [|split].
-  - apply (spec_ok_sections_iff x rows _ E). apply (every_failure_has_section _ _ _ _ _ H).
+  intros Hg E H. split; [|split].
+  - apply (spec_ok_sections_iff x rows _ E). apply (every_failure_has_section _ _ _ _ _ Hg H).
   - intros Hh. apply beq_eq.
     assert (Hst : rp_status rep = report_status (x_mode x) rows).
-    { unfold report_struct_rows in H. destruct (negb (c_running (cfg_of x))); [discriminate|].
+    { unfold report_struct_rows_with, report_struct_rows_gen in H. destruct (negb (c_running (cfg_of x))); [discriminate|].
       destruct (f_comment (files_of x)); try discriminate;
-        destruct (steps_loop _ _ _ rows); try discriminate; injection H as <-; reflexivity. }
+        destruct (steps_loop_gen _ _ _ _ _ rows); try discriminate; injection H as <-; reflexivity. }
     rewrite Hst. unfold status_hyps in Hh. apply status_agrees.
     + intros Hc. rewrite Hc in Hh. apply skipped_exit0b_iff. exact Hh.
     + intros Hc. rewrite Hc in Hh. apply reachable_seqb_iff. exact Hh.
